@@ -112,5 +112,5 @@ def run(ctx):
                    'negative, WINDOW_UPDATE schedules, two-step overflow attempts per stream and per connection, final drain); receiver scenarios (uploads to 200000 bytes with '
                    'padding, small and default buffers, certain overrun against a handler that reads nothing, client RST mid-body kept in separate scenarios)'}
     return ctx.finish(cov, assumptions=['the client ledger counts window increases when sent and decreases when acknowledged: an upper bound of what the server may use',
-                                        'the client transport is driven as a sender of request bodies (windows, SETTINGS changes incl. the maximum frame size); its receive side (credit for response data) is not',
+                                        'the client transport is driven as a sender of request bodies (windows, SETTINGS changes incl. the maximum frame size); and as a receiver of response bodies (consumed or closed early: connection-level credit returned, never over-returned, within the batching bound at quiescence)',
                                         'Flow.tla uses scaled-down constants (windows 8/6, batching threshold 4); the trace uses the real 65535 / 1 MiB / 4096 / 2^31-1'])
